@@ -12,8 +12,14 @@ from .rules_embed import _bind
 FLAGS = ['hide_args', 'hide_kwargs', 'hide_varargs', 'hide_varkwargs']
 
 
+KNOWN_HELPERS = frozenset(['sort_params', 'apply_params', 'copy_sources', '_remove_from_src', '_pnames', '_pop_chain', '_mask', 'mask',
+                           'merge', 'embed', '_embed', 'forwards', 'merge_depths', '_check_no_dupes', '_clear_defaults'])
+
+
 def _no_inline(fi, depth, node):
-    return False
+    # helpers the rules know by name stay calls (their contracts are checked on their own); a private module-level helper
+    # the rules have never heard of is a piece of _mask that was extracted: it is read in place
+    return fi.module.name == SIG and fi.cls is None and fi.name.startswith('_') and fi.name not in KNOWN_HELPERS and depth < 2
 
 
 class MaskModel(object):
@@ -388,6 +394,10 @@ def rule_mask_names(check, model, rules):
                             index_dicts.add(c)
                 elif k == 'isnone' and atom[1] == model.partial_term():
                     g['partial'] = not pol
+                elif k == 'isnone' and atom[1][0] == 'S' and _is_bucket_element(model, atom[1], carried):
+                    # an element of a parameter bucket is a Parameter, never None
+                    if pol:
+                        g['__infeasible__'] = True
                 elif k == 'truthy':
                     t = atom[1]
                     b = model.sides.bucket(t)
@@ -402,6 +412,8 @@ def rule_mask_names(check, model, rules):
                         unknown.append((atom, pol))
                 else:
                     unknown.append((atom, pol))
+            if g.pop('__infeasible__', False):
+                continue
             gtext = lits_text(sp.lits)
             ctx = ','.join('%s=%s' % (k, og[k]) for k in FLAGS if k in og)
             gk = ','.join('%s%s' % ('' if v else '!', k if isinstance(k, str) else '.'.join(k)) for k, v in sorted(g.items(), key=str))
@@ -483,6 +495,16 @@ def rule_mask_names(check, model, rules):
                                 add('table', 'row "keyword-only, partial": the parameter does not get the bound value as default')
                             for e in reps:
                                 v = e.args[1]
+                                built = _built_parameter(sp, v)
+                                if built is not None:
+                                    if built['name'] != el:
+                                        add('table', 'row "keyword-only, partial": replaced by a parameter named %s' % show(built['name'])[:40])
+                                    if kind_of_attr_term(built['kind']) != 'KWO':
+                                        add('kinds', 'row "keyword-only, partial": kind changed to %s' % kind_of_attr_term(built['kind']))
+                                    if built['default'] != ('S', named, el):
+                                        add('pdefault', 'row "keyword-only, partial": default is %s, not the value bound to that name'
+                                            % show(built['default'])[:60])
+                                    continue
                                 if not (v[0] == 'M' and v[2] == 'replace'):
                                     add('unknown', 'replacement value %s' % show(v)[:80])
                                     continue
@@ -568,6 +590,28 @@ _WIT = {
     'src': "mask(s('a, b'), 0, 'a').sources must not keep 'a'",
     'pdefault': "signature(partial(f, b=2)) must show b=2",
 }
+
+
+def _built_parameter(sp, v):
+    """v = a fresh UpgradedParameter(...) built on this path -> dict(name, kind, default), else None"""
+    if not (isinstance(v, tuple) and v and v[0] == 'O' and str(v[1]).endswith('UpgradedParameter')):
+        return None
+    for x, _g in walk_effects(sp.effects):
+        if x.kind == 'call' and x.result == v:
+            kws = dict(x.kws)
+            a = list(x.args)
+            return {'name': a[0] if a else kws.get('name'), 'kind': a[1] if len(a) > 1 else kws.get('kind'),
+                    'default': a[2] if len(a) > 2 else kws.get('default')}
+    return None
+
+
+def _is_bucket_element(model, t, carried):
+    """t = <bucket>[...] for one of the classified buckets (directly or through its loop-carried variable)"""
+    base = t[1]
+    if base[0] == 'V' and isinstance(base[3], tuple):
+        base = base[3]
+    b = model.sides.bucket(base)
+    return b is not None and b[1] in (0, 1, 3)
 
 
 def _container_role(model, c, carried):
@@ -680,7 +724,18 @@ def _row_pok(model, sp, el, carried, pok_in, pok_out, vp_in, vp_out, vp_name, kw
                 add('table', 'row "names a positional-or-keyword parameter, partial": the parameter does not stay as keyword-only')
             for e in mine:
                 v = e.args[1]
-                if v[0] == 'M' and v[2] == 'replace' and v[1] == param:
+                built = _built_parameter(sp, v)
+                if built is not None:
+                    # rebuilt with the constructor instead of param.replace(): name, kind and default are what this table is about
+                    # (what else the rebuilt parameter keeps -- annotations, provenance -- is C11.R2 / C08's business)
+                    if built['name'] not in (('A', param, 'name'), el):
+                        add('table', 'row "names a positional-or-keyword parameter, partial": the parameter kept is named %s' % show(built['name'])[:40])
+                    if kind_of_attr_term(built['kind']) != 'KWO':
+                        add('kinds', 'row "names a positional-or-keyword parameter, partial": kept with kind %s' % kind_of_attr_term(built['kind']))
+                    if built['default'] not in (('S', named, ('A', param, 'name')), ('S', named, el)):
+                        add('pdefault', 'row "names a positional-or-keyword parameter, partial": default is %s, not the bound value'
+                            % show(built['default'])[:60])
+                elif v[0] == 'M' and v[2] == 'replace' and v[1] == param:
                     kws = dict(v[4])
                     if kind_of_attr_term(kws.get('kind')) != 'KWO':
                         add('kinds', 'row "names a positional-or-keyword parameter, partial": kept with kind %s' % kind_of_attr_term(kws.get('kind')))
